@@ -21,7 +21,6 @@ ENS = ENSPAIRS + '''//@   ensures [illegal-reference] (exists k int :: 0 <= k &&
 def nw(recv, fn):
     return f'''//@ func ({recv}).{fn}
 //@   property C09
-//@   maypanic
 //@   requires alpha != nil && allocated(idxRef(alpha))
 {ENS}//@   ensures [spans] result1 == nil ==> len(result0) > 0 && result0[0].(*featPair).a.start == 0 && result0[0].(*featPair).b.start == 0 && result0[len(result0)-1].(*featPair).a.end == len(rSeq) && result0[len(result0)-1].(*featPair).b.end == len(qSeq)
 //@   loop 1 invariant {LOOP1}
@@ -48,7 +47,6 @@ def sw(recv, fn):
     cv = f"(c > 1 ==> {RV}) && (r > 1 ==> {QV})"
     return f'''//@ func ({recv}).{fn}
 //@   property C09
-//@   maypanic
 //@   requires alpha != nil && allocated(idxRef(alpha))
 {ENSPAIRS}//@   ensures [illegal-reference] len(qSeq) > 0 && (exists k int :: 0 <= k && k < len(rSeq) && lidx(alpha, rSeq[k]) < 0) ==> result1 != nil
 //@   ensures [illegal-query]     len(rSeq) > 0 && (exists k int :: 0 <= k && k < len(qSeq) && lidx(alpha, qSeq[k]) < 0) ==> result1 != nil
@@ -75,7 +73,6 @@ def sw(recv, fn):
 def fitted(recv, fn):
     return f'''//@ func ({recv}).{fn}
 //@   property C09
-//@   maypanic
 //@   requires alpha != nil && allocated(idxRef(alpha)) && len(qSeq) > 0
 {ENS}//@   loop 1 invariant {LOOP1}
 //@   loop 2 invariant 0 <= idx && idx <= len(rSeq) && {KEEP} && forall k int :: 0 <= k && k < idx ==> lidx(alpha, rSeq[k]) >= 0
@@ -131,7 +128,7 @@ def nwaffine(recv, fn):
 //@   loop 10 writes fresh
 ''')
 def swaffine(recv, fn):
-    base = sw(recv, fn)
+    base = sw(recv, fn).replace('//@   property C09\n', '//@   property C09\n//@   maypanic\n', 1)
     base = base.replace("//@   loop 4 invariant 0 <= i && i < r && 0 <= j && j < c &&", "//@   loop 4 invariant 0 <= i && i < r && 0 <= j && j < c && 0 <= layer && layer <= 2 &&")
     return affine(base)
 def fittedaffine(recv, fn):
@@ -278,6 +275,11 @@ def tb_lines(kind, ql, trace, rev):
     A(trace, 'scores', f"forall k int {{aln[k]}} :: 0 <= k && k < len(aln) ==> {sc('aln[k]')}")
     A(trace, 'chain', f"forall k int, k2 int {{succ(k, k2)}} :: 0 <= k && k2 == k + 1 && k2 < len(aln) ==> proving(succ(k, k2)) && {fp('aln[k2]','a.end')} == {fp('aln[k]','a.start')} && {fp('aln[k2]','b.end')} == {fp('aln[k]','b.start')}")
     A(trace, 'tail', f"forall k int {{aln[k]}} :: 0 <= k && k == len(aln) - 1 ==> {fp('aln[k]','a.start')} == maxI && {fp('aln[k]','b.start')} == maxJ")
+    # with the table invariant, the flattened matrix and the marked current cell the traceback's "no path" panic is
+    # unreachable: the linear-gap kernels never panic (no maypanic in their contracts)
+    A(trace, 'la', "forall x int, y int {old(a[x][y])} :: 0 <= x && x < let && 0 <= y && y < let ==> la[x*let+y] == old(a[x][y])")
+    if kind == 'nw':
+        A(trace, 'here', "cell(i, j)")
     A(trace, 'origin', f"proving(cell(0, 0)) && {O('0','0')} == 0")
     A(rev, 'scores', f"forall k int {{aln[k]}} :: 0 <= k && k < len(aln) ==> {sc('aln[k]')}")
     # the reversal: positions below i and above j are in their final order, the middle still in traceback order
